@@ -237,7 +237,7 @@ handle_type redirect_destroy(handle_type child, REPROC_REDIRECT type)
 CONTRACT(process_wait)
 int process_wait(pid_t process)
   REQ("C06/process_wait.own_unreaped_child", process > 0 && process == g.child_pid && g.child_live && !g.child_reaped)
-  ASSIGNS(G_ERR, g.wait_calls, g.child_reaped, g.child_live, g.reaps, g.may_block)
+  ASSIGNS(G_ERR, g.wait_calls, g.child_reaped, g.child_live, g.reaps, g.may_block, g.eintr_run, g.wait_eintr)
   ENS("C14/process_wait.error_ghost_sane", G_ERR_SANE)
   ENS("C01/process_wait.one_blocking_waitpid", g.wait_calls == OLD(g.wait_calls) + 1)
   ENS("C01/process_wait.status_means_reaped", IMPLIES(RV >= 0, g.child_reaped && !g.child_live && g.reaps == OLD(g.reaps) + 1))
@@ -289,7 +289,7 @@ int process_start(pid_t *process, const char *const *argv, struct process_option
   REQ("C13/process_start.argv_wellformed", argv == NULL || argv[0] != NULL)
   REQ("C10/process_start.child_handles_are_open", IS_OPEN(options.handle.in) && IS_OPEN(options.handle.out) && IS_OPEN(options.handle.err) && IS_OPEN(options.handle.exit))
   ASSIGNS(*process, g, environ)
-  ENS("C14/process_start.error_ghost_sane", G_ERR_SANE && g.child_fate_errno >= 0 && g.child_fate_errno < 134 && g.now == OLD(g.now) && g.in_fd == OLD(g.in_fd) && g.stream_pos == OLD(g.stream_pos))
+  ENS("C14/process_start.error_ghost_sane", G_ERR_SANE && g.eintr_run == 0 && g.child_fate_errno >= 0 && g.child_fate_errno < 134 && g.now == OLD(g.now) && g.in_fd == OLD(g.in_fd) && g.stream_pos == OLD(g.stream_pos))
   ENS("C04/process_start.side_of_fork", IMPLIES(g.in_child, gc.cfg_child_side) && IMPLIES(RV > 0, !gc.cfg_child_side))
   ENS("C11/process_start.fork_mode_child_descriptors", IMPLIES(g.in_child, (g.fds.open & ~7u & ~PS_HANDLES_MASK) == 0 && (g.fds.open & PS_HANDLES_MASK & ~7u) == (OLD(g.fds.open) & PS_HANDLES_MASK & ~7u)))
   ENS("C04/process_start.success_has_no_failed_call", IMPLIES(RV >= 0, g.e.faults == OLD(g.e.faults)))
